@@ -152,7 +152,8 @@ def c11(tier, seed):
     scns = C.pairings_2d()[:8] + C.strands()[:2] + C.cubes_3d()[:4] + C.unweighted(C.pairings_2d()[:2])
     scns = scns + [dict(s, name=s["name"] + ".ins") for s in _insertion_scns(tier, seed)]
     return dict(
-        jobs=_value_jobs("C11", "c11", scns, tier, seed),
+        jobs=_value_jobs("C11", "c11", scns, tier, seed,
+                         power=((1, 3, 7), 25, 5, 5 if tier == "quick" else 200)),
         rule="as C04: plain scenarios plus seeded insertion configurations (subtotals, "
              "differences, intersections) x TLC-enumerated bags; variances compared as "
              "rationals, std-dev / std-err / MoE by square and sign",
@@ -169,7 +170,8 @@ def c12(tier, seed):
                    if len(s["dims"]) > 1]
     return dict(
         jobs=_value_jobs("C12", "c12", scns, tier, seed,
-                         invariants=("EmitInv", "ThmZ2IsChiSq"), sim_extra=3),
+                         invariants=("EmitInv", "ThmZ2IsChiSq"), sim_extra=3,
+                         power=((1, 3, 7), 25, 5, 5 if tier == "quick" else 200)),
         rule="as C04 (plain + insertion configurations) x TLC-enumerated bags, so that "
              "degenerate tables (single row/column, proportional rows, empty margins) occur; "
              "z by sign and square, p against the two-sided normal tail of the spec's Z2; "
@@ -203,7 +205,8 @@ def c14(tier, seed):
                             scenario("cat_1d.v.ins", [cat("A", 4, miss=[2], vals=[1, 9, 2, 4])])],
                            6 if tier == "quick" else 30, seed)
     return dict(
-        jobs=_value_jobs("C14", "c14", scns + ins, tier, seed),
+        jobs=_value_jobs("C14", "c14", scns + ins, tier, seed,
+                         power=((1, 4, 9), 40, 6, 5 if tier == "quick" else 200)),
         rule="numeric-value assignments from {-1,0,1,2,none} (fixed + seeded) x every bag of "
              "<= N respondents (so zero-count categories fall anywhere in the value order) and "
              "random larger bags; subtotal vectors via insertion configurations",
